@@ -73,7 +73,7 @@ pub const OPS: &[&str] = &["add", "sub", "mul", "div", "fma", "sqrt", "quantize"
     "minnum", "maxnum", "minmag", "maxmag", "scaleb", "ldexp", "scalebln", "logb", "ilogb", "quantexp", "llquantexp", "quantum",
     "samequantum", "totalorder", "totalordermag", "class", "isx", "abs", "neg", "copy", "copysign", "encode", "decode",
     "from_f32", "from_f64", "from_i32", "from_u32", "from_i64", "from_u64", "lrint", "llrint", "lround", "llround", "cmp", "ops",
-    "parse", "fromstr", "fromstr2", "fmt", "hash", "hasheq", "hashset", "hashslice", "o_add", "o_sub", "o_mul", "o_div", "o_rem", "o_neg", "sum", "product",
+    "parse", "fromstr", "fromstr2", "fmt", "hash", "hasheq", "hashset", "hashslice", "hashsliceeq", "o_add", "o_sub", "o_mul", "o_div", "o_rem", "o_neg", "sum", "product",
     "fromf32_t", "fromf64_t", "serde", "serde_de", "nan", "consts", "macro"];
 pub const TO_INT_TYPES: &[&str] = &["i32", "u32", "i64", "u64"];
 pub const TO_INT_KINDS: &[&str] = &["rnint", "xrnint", "floor", "xfloor", "ceil", "xceil", "int", "xint", "rninta", "xrninta"];
@@ -116,6 +116,10 @@ fn run_case(t: &[&str]) -> (String, F) {
         "serde" => { let js = serde_json::to_string(&a[0]).unwrap(); let back: Result<d128, _> = serde_json::from_str(&js);
             return (format!("{} {}", hex_str(&js), match back { Ok(v) => format!("ok {:032x}", bits(&v)), Err(_) => "err 0".to_string() }), f) }
         "hash" => { let mut r = Rec(vec![]); std::hash::Hash::hash(&a[0], &mut r); let s: Vec<String> = r.0.iter().map(|w| format!("{:x}", w)).collect(); return (s.join(" "), f) }
+        "hashsliceeq" => {   // args: n x1..xn y1..yn : do the two slices feed identical words to the Hasher?
+            let n = raw[0] as usize; let xs = &a[1..1 + n]; let ys = &a[1 + n..1 + 2 * n];
+            let mut r1 = Rec(vec![]); std::hash::Hash::hash_slice(xs, &mut r1); let mut r2 = Rec(vec![]); std::hash::Hash::hash_slice(ys, &mut r2);
+            return (format!("{:x}", (r1.0 == r2.0) as u8), f) }
         "hashslice" => { let mut r = Rec(vec![]); std::hash::Hash::hash_slice(&a[..], &mut r); let s: Vec<String> = r.0.iter().map(|w| format!("{:x}", w)).collect(); return (s.join(" "), f) }
         "add" => bits(&d128::addition(&a[0], &a[1], md, &mut f)),
         "sub" => bits(&d128::subtraction(&a[0], &a[1], md, &mut f)),
